@@ -151,7 +151,9 @@ def rule_stop(chk, s):
 
 
 def rule_clauses(chk, d, t):
-    for f in (d, t):
+    from .common import invocation_context
+    for f in (invocation_context(d.module.repo, d)[0], t):
+        chk.touch(f)
         g = f.cfg()
         ki = [h for h in pat.except_nodes(g) if handler_names(h.ast) and 'KeyboardInterrupt' in handler_names(h.ast)]
         se = [h for h in pat.except_nodes(g) if handler_names(h.ast) and 'SystemExit' in handler_names(h.ast)]
